@@ -34,7 +34,6 @@ func gqlPost(h http.Handler, q string) (map[string]any, string) {
 	return out, rec.Body.String()
 }
 
-
 func runC17(c *runCtx) {
 	defer cleanupScratch()
 	// resolver programs as the extractor sees them in the current source
